@@ -691,6 +691,10 @@ def gen(props, tier, rng):
                 er = e_rules(rules)
                 for s in (strings if len(code) <= 2 or not q else rng.sample(strings, 40)):
                     yield f"schc matchschc {er} {rng.choice('LR')}:{s} # prefixfree"
+                # the same question put to the manager (its own entry point), on the shortest strings: shorter than a rule ID,
+                # equal to a rule ID read as a number, empty
+                for s in [x for x in strings if len(x) <= 4]:
+                    yield f"schc mdecompress {er} {rng.choice('LR')}:{s} # prefixfree total"
         for _ in range(300 if q else 3000):
             n = rng.randrange(1, 9)
             codes = rulegen.prefix_free_codes(rng, n, maxlen=16)
@@ -710,11 +714,12 @@ def gen(props, tier, rng):
     # ---------------------------------------------------------------- checksums whose one's-complement sum folds twice
     if props & {'C01', 'C03', 'C09', 'C20'}:
         for i in range(12 if q else 120):
-            data, exp, pl = packets.build_double_carry_udp(rng, v6=(i % 2 == 0))
+            hdr4 = i % 3 == 2        # every third: the IPv4 HEADER checksum is the sum that folds twice
+            data, exp, pl = packets.build_double_carry_ipv4(rng) if hdr4 else packets.build_double_carry_udp(rng, v6=(i % 2 == 0))
             pkt = rulegen.packet_from_fields(exp, packets.bits_of(pl), rng.choice('UD'))
             r = stack_rule(rng, pkt, compute_prob=0.3)
             for k, f in enumerate(r['fields']):
-                if f['id'] == 'UDP:Checksum':
+                if f['id'] == ('IPv4:Header Checksum' if hdr4 else 'UDP:Checksum'):
                     r['fields'][k] = {'id': f['id'], 'len': 16, 'pos': f['pos'], 'dir': 'B', 'mo': 'ig', 'cda': 'co', 'tv': ('b', 'L:')}
             sc = spec.ref_compress(pkt, r)
             if props & {'C01', 'C09'}:
@@ -874,6 +879,13 @@ def _gen_c15_explicit(rng, q):
 
 def _gen_c15(rng, q):
     yield from _gen_c15_explicit(rng, q)
+    # every SCHC packet of at most 4 bits against every small prefix-free rule-ID set, through the manager: packets shorter
+    # than a rule ID, equal to one read as a number, empty — the rule-ID error or a rule whose ID is a prefix, nothing else
+    short = [format(v, f'0{k}b') if k else '' for k in range(5) for v in range(1 << k)]
+    for code in all_prefix_free_sets(4 if q else 5):
+        rules = [rulegen.default_rule(c) if rng.random() < 0.3 else {'id': abuf(c, rng.choice('LR')), 'nature': 'c', 'fields': []} for c in code]
+        for sbits in (short if len(code) <= 2 else rng.sample(short, 8)):
+            yield f"schc mdecompress {e_rules(rules)} {rng.choice('LR')}:{sbits} # prefixfree total"
     N = 60 if q else 500
     for i in range(N):
         stack = STACKS[i % 5]
